@@ -62,6 +62,8 @@ func vfKnownNI(name string) string {
 }
 
 type vfGen struct {
+	// pfx prefixes every symbolic input name (two worlds in one harness)
+	pfx    string
 	nextID uint64
 	// fixLow: next-hops and groups of the pre-state live in the default instance
 	fixLow bool
@@ -195,42 +197,42 @@ type vfPreCfg struct {
 // operations.  Every slot is optional (symbolic liveness); contents are symbolic.
 func vfCanonical(r *RIB, ref *vfRef, g *vfGen, c vfPreCfg) {
 	for i := 0; i < c.nNH; i++ {
-		if vfBool("pre.nh.live") {
-			vfAssume(vfSubmit(r, ref, g.nh("pre.nh")) == vfStAcked)
+		if vfBool(g.pfx+"pre.nh.live") {
+			vfAssume(vfSubmit(r, ref, g.nh(g.pfx+"pre.nh")) == vfStAcked)
 		}
 	}
 	for i := 0; i < c.nNHG; i++ {
-		if vfBool("pre.nhg.live") {
-			vfAssume(vfSubmit(r, ref, g.nhg("pre.nhg", c.members)) == vfStAcked)
+		if vfBool(g.pfx+"pre.nhg.live") {
+			vfAssume(vfSubmit(r, ref, g.nhg(g.pfx+"pre.nhg", c.members)) == vfStAcked)
 		}
 	}
 	for i := 0; i < c.nTop; i++ {
-		if vfBool("pre.top.live") {
-			k := c.topKinds[vfInt("pre.top.kind", 0, len(c.topKinds)-1)]
-			vfAssume(vfSubmit(r, ref, g.top("pre.top", k)) == vfStAcked)
+		if vfBool(g.pfx+"pre.top.live") {
+			k := c.topKinds[vfInt(g.pfx+"pre.top.kind", 0, len(c.topKinds)-1)]
+			vfAssume(vfSubmit(r, ref, g.top(g.pfx+"pre.top", k)) == vfStAcked)
 		}
 	}
 	for i := 0; i < c.nHeld; i++ {
-		if vfBool("pre.held.live") {
+		if vfBool(g.pfx+"pre.held.live") {
 			var d *vfOpD
-			if vfBool("pre.held.isNHG") {
-				d = g.nhg("pre.held", c.members)
+			if vfBool(g.pfx+"pre.held.isNHG") {
+				d = g.nhg(g.pfx+"pre.held", c.members)
 			} else {
-				d = g.top("pre.held", c.topKinds[vfInt("pre.held.kind", 0, len(c.topKinds)-1)])
+				d = g.top(g.pfx+"pre.held", c.topKinds[vfInt(g.pfx+"pre.held.kind", 0, len(c.topKinds)-1)])
 			}
-			if g.rich && vfBool("pre.held.replace") {
+			if g.rich && vfBool(g.pfx+"pre.held.replace") {
 				d.typ = vfREPLACE
 			}
 			vfAssume(vfSubmit(r, ref, d) == vfStHeld)
 		}
 	}
 	for i := 0; i < c.nStale; i++ {
-		if vfBool("pre.stale.live") {
+		if vfBool(g.pfx+"pre.stale.live") {
 			// needs an installed group to add the entry in the first place
-			add := g.top("pre.stale", vfKV4)
+			add := g.top(g.pfx+"pre.stale", vfKV4)
 			vfAssume(vfSubmit(r, ref, add) == vfStAcked)
 			rep := &vfOpD{id: g.id(), typ: vfREPLACE, kind: vfKV4, ni: add.ni, pfx: add.pfx, hasBody: true,
-				hasNHG: true, nhg: vfU64("pre.stale.newnhg"), hasNHGNI: add.hasNHGNI, nhgNI: add.nhgNI}
+				hasNHG: true, nhg: vfU64(g.pfx+"pre.stale.newnhg"), hasNHGNI: add.hasNHGNI, nhgNI: add.nhgNI}
 			vfAssume(vfSubmit(r, ref, rep) == vfStHeld)
 			del := &vfOpD{id: g.id(), typ: vfDELETE, kind: vfKV4, ni: add.ni, pfx: add.pfx, hasBody: true}
 			vfAssume(vfSubmit(r, ref, del) == vfStAcked)
